@@ -108,13 +108,15 @@ pub(super) async fn sync(
                 base_version_id = new_version_id;
                 local_ops = local_ops.split_off(batch_len);
 
-                // make a snapshot if the server indicates it is urgent enough
+                // make a snapshot if the server indicates it is urgent enough, but only when no
+                // local operations remain, so that the local state is exactly that of the new
+                // version.
                 let base_urgency = if avoid_snapshots {
                     SnapshotUrgency::High
                 } else {
                     SnapshotUrgency::Low
                 };
-                if snapshot_urgency >= base_urgency {
+                if local_ops.is_empty() && snapshot_urgency >= base_urgency {
                     let snapshot = snapshot::make_snapshot(txn).await?;
                     server.add_snapshot(new_version_id, snapshot).await?;
                 }
